@@ -34,7 +34,6 @@ type state struct {
 	root string
 	n    int
 	dir  string
-	seen map[string]bool // salts and nonces of every file the real code wrote in this run
 
 	have       bool   // the harness put/created a file in dir
 	cur        []byte // its bytes
@@ -54,8 +53,8 @@ func (s *state) reset() {
 		_ = os.RemoveAll(s.dir)
 	}
 	s.n++
-	r, seen := s.root, s.seen
-	*s = state{root: r, n: s.n, seen: seen}
+	r := s.root
+	*s = state{root: r, n: s.n}
 	s.dir = filepath.Join(s.root, fmt.Sprintf("s%d", s.n))
 	_ = os.MkdirAll(s.dir, 0o700)
 }
@@ -191,7 +190,7 @@ func (s *state) create(c *hx.Ctx, pass []byte) string {
 	}
 	s.cur, _ = os.ReadFile(s.path())
 	s.have, s.rightKnown, s.right, s.sk, s.origPub, s.pristine, s.known = true, true, cp(pass), nil, pub, true, false
-	s.fresh(c)
+	s.fresh(c, func(d string) error { _, e := filesigner.CreateFileSystemSigner(d, cp(pass)); return e })
 	if fi, err := os.Stat(s.path()); err == nil && fi.Mode().Perm()&0o077 != 0 {
 		c.Report("C19/permissions/key-file-mode", fmt.Sprintf("key file mode %o is accessible to group/others", fi.Mode().Perm()))
 	}
@@ -201,7 +200,8 @@ func (s *state) create(c *hx.Ctx, pass []byte) string {
 
 // fresh: salt and nonce of a file the real code has just written must be fresh random values
 // (a repeated nonce under one key breaks AES-GCM; a fixed salt defeats the KDF's purpose).
-func (s *state) fresh(c *hx.Ctx) {
+// `again` makes the real code write a second file the same way into the given directory.
+func (s *state) fresh(c *hx.Ctx, again func(dir string) error) {
 	var k kd
 	if json.Unmarshal(s.cur, &k) != nil {
 		c.Report("C19/format/written-file-unreadable", "the file written by the real code is not a JSON object of the documented shape")
@@ -210,15 +210,22 @@ func (s *state) fresh(c *hx.Ctx) {
 	if len(k.Nonce) != 12 || len(k.Salt) == 0 || len(k.PubKeyBytes) != 32 || len(k.PrivKeyEncrypted) == 0 {
 		c.Report("C19/format/written-file-incomplete", fmt.Sprintf("written file has nonce %d bytes, salt %d, pub_key %d, priv_key_encrypted %d", len(k.Nonce), len(k.Salt), len(k.PubKeyBytes), len(k.PrivKeyEncrypted)))
 	}
-	for _, kv := range []struct {
-		n string
-		v []byte
-	}{{"nonce", k.Nonce}, {"salt", k.Salt}} {
-		key := kv.n + ":" + string(kv.v)
-		if s.seen[key] {
-			c.Report("C19/randomness/"+kv.n+"-reused", "two key files written by the real code carry the same "+kv.n)
-		}
-		s.seen[key] = true
+	d := filepath.Join(s.root, fmt.Sprintf("fresh%d", s.n))
+	defer os.RemoveAll(d)
+	var err error
+	if pv := protect(func() { err = again(d) }); pv != nil || err != nil {
+		return
+	}
+	fb, err := os.ReadFile(filepath.Join(d, "signer.json"))
+	var k2 kd
+	if err != nil || json.Unmarshal(fb, &k2) != nil {
+		return
+	}
+	if bytes.Equal(k.Nonce, k2.Nonce) {
+		c.Report("C19/randomness/nonce-reused", "two key files written by the real code carry the same nonce")
+	}
+	if bytes.Equal(k.Salt, k2.Salt) {
+		c.Report("C19/randomness/salt-reused", "two key files written by the real code carry the same salt")
 	}
 }
 
@@ -325,7 +332,7 @@ func (s *state) importKey(c *hx.Ctx, o hx.Op) string {
 	if fromOp {
 		s.known = true
 	}
-	s.fresh(c)
+	s.fresh(c, func(d string) error { return filesigner.ImportPrivateKey(d, cp(raw), cp(pass)) })
 	if fi, err := os.Stat(s.path()); err == nil && fi.Mode().Perm()&0o077 != 0 {
 		c.Report("C19/permissions/key-file-mode", fmt.Sprintf("key file mode %o is accessible to group/others", fi.Mode().Perm()))
 	}
@@ -427,7 +434,7 @@ func runC19(c *hx.Ctx) {
 		panic(err)
 	}
 	defer os.RemoveAll(root)
-	s := &state{root: root, seen: map[string]bool{}}
+	s := &state{root: root}
 	s.reset()
 	for {
 		o, ok := c.Next()
